@@ -68,6 +68,13 @@ def enc_table(t):
     return coqio.lst([coqio.pair(coqio.string(p), coqio.string(ty)) for p, ty in t])
 
 
+SPEC_TABLE_DEF = """
+Definition spec_table (matches : table) : table :=
+  let cifs := map fst (filter (fun e => String.eqb (lower (snd e)) "cifs") matches) in
+  filter (fun m => existsb (fun p => str_prefix p (fst m)) cifs) matches.
+"""
+
+
 def run(ctx):
     from pydra.utils.mount_identifier import MountIndentifier as M
     rng = ctx.rng
@@ -116,12 +123,19 @@ Definition tie_ok (c : case_t) : bool :=
   list_eqb entry_eqb (parse_table matches) tab &&
   forallb (fun o => let '(p, e, cifs, same) := o in
      entry_eqb (get_mount tab p) e && Bool.eqb (on_cifs tab p) cifs && Bool.eqb (on_same_mount tab p p0) same) obs.
+(* reference reading of "the mount table as parsed": the (mount point, fstype) pairs of the mount lines that lie
+   under a CIFS mount (what parse_mount_table documents), as a set, in line order, with no sorting; the lookup
+   is then judged against THAT table, so losing or inventing entries while parsing shows up as a wrong mount *)
+Definition spec_table (matches : table) : table :=
+  let cifs := map fst (filter (fun e => String.eqb (lower (snd e)) "cifs") matches) in
+  filter (fun m => existsb (fun p => str_prefix p (fst m)) cifs) matches.
 Definition spec_ok (c : case_t) : bool :=
   let '(matches, tab, obs, p0) := c in
+  let st := spec_table matches in
   forallb (fun o => let '(p, e, cifs, same) := o in
-     entry_eqb (spec_mount tab p) e
-     && Bool.eqb cifs (String.eqb (snd (spec_mount tab p)) "cifs")
-     && Bool.eqb same (String.eqb (fst (spec_mount tab p)) (fst (spec_mount tab p0)))) obs.
+     entry_eqb (spec_mount st p) e
+     && Bool.eqb cifs (String.eqb (snd (spec_mount st p)) "cifs")
+     && Bool.eqb same (String.eqb (fst (spec_mount st p)) (fst (spec_mount st p0)))) obs.
 """ % (ety, ety)
     res = coqio.run_cases(ctx.scratch, "c38", ["Base.PyPath", "Model.Mount", "Spec.Mount"], "case_t", cases,
                           {"tie": "tie_ok", "spec": "spec_ok"}, extra=extra)
@@ -134,7 +148,9 @@ Definition spec_ok (c : case_t) : bool :=
             exp = coqio.eval_terms(ctx.scratch, "x%d" % i, ["Base.PyPath", "Model.Mount", "Spec.Mount"],
                                    ["(parse_table %s, map (%s %s) %s)" % (
                                        enc_table(m["matches"]), "spec_mount" if kind == "spec" else "get_mount",
-                                       enc_table(m["table"]), coqio.lst([coqio.string(p) for p in m["paths"]]))])
+                                       ("(spec_table %s)" % enc_table(m["matches"])) if kind == "spec" else enc_table(m["table"]),
+                                       coqio.lst([coqio.string(p) for p in m["paths"]]))],
+                                   extra=SPEC_TABLE_DEF)
             out.failures.append(Failure(case={"output": m["output"], "matches": m["matches"], "paths": m["paths"]},
                                         observed={"table": m["table"], "lookups": m["observed"]},
                                         expected=exp[0], kind=kind,
